@@ -66,6 +66,10 @@ type Setting struct {
 	// value (a preset, a literal, an option that went through a variable of that
 	// type) instead of the named NodeOption type
 	Plain bool `json:"plain,omitempty"`
+	// Nest: while this constructor option is being applied it builds another,
+	// unrelated node (a factory that derives helper nodes). That construction is
+	// none of this node's business.
+	Nest bool `json:"nest,omitempty"`
 }
 
 type Conn struct {
